@@ -5,6 +5,7 @@
 From GL Require Import Base.Bytes Codec.IKey Corr.Cmps Gen.Consts Gen.Inst Lsm.Lsm Lsm.Compact Store.Repair.
 From GL Require Export Corr.LsmRun.
 From Coq Require Import String.
+From GL Require Corr.C19BytesRun.
 
 Inductive kblock := KB (damaged : bool) (es : list kentry).
 Inductive kfile := KF (num : N) (blocks : list kblock).
@@ -17,7 +18,9 @@ Inductive kbatch := KJ (seq : N) (es : list kentry).
    order, after recoverTable's commit and after the journal commit *)
 Inductive c19case :=
 | KRecover (cid : N) (strict : bool) (files : list kfile) (journal : list kbatch) (next : N)
-           (queries : list (string * option string)) (seq_tables seq_end : N) (l0_tables l0_final : list N).
+           (queries : list (string * option string)) (seq_tables seq_end : N) (l0_tables l0_final : list N)
+(* real file bytes through Store/RepairBytes.v recover_bytes (Corr/C19BytesRun.v) *)
+| KRecoverB (b : C19BytesRun.kbcase).
 
 Definition to_block (b : kblock) : fblock :=
   match b with KB d es => {| fb_damaged := d; fb_entries := map to_entry es |} end.
@@ -49,6 +52,7 @@ Definition run_case (cs : c19case) : bool :=
              && nums_eqb (map t_num (hd [] (st_levels st))) l0_final
              && forallb (fun q => match q with (k, obs) => opt_eqb (api_of (lsm_get c kp st (unhex k) seq)) obs end) qs
          end
+  | KRecoverB b => C19BytesRun.run_bcase b
   end.
 
 Definition mismatches (l : list c19case) : list N := mism_from run_case 0 l.
